@@ -207,6 +207,7 @@ def matcher_states(ctx, cls, sym, z):
     """every tabulated isotope and charge encodes into the matcher bit layout without leaving its field"""
     import struct
     a0 = cls()
+    words = {}
     for iso in [None] + sorted(a0.isotopes_distribution):
         for ch in (-4, 0, 4):
             m = MoleculeContainer()
@@ -227,11 +228,15 @@ def matcher_states(ctx, cls, sym, z):
                               {'element': sym, 'isotope': iso, 'charge': ch})
                 continue
             v1, v2, v3, v4 = struct.unpack_from('QQQQ', blob, 4)
+            other = words.setdefault((v1, v2, v3, v4), (iso, ch))
+            if other != (iso, ch):     # observed words, not the formula: two states of one element must never encode alike
+                ctx.violation('matcher-states-encode-alike', '%s: isotope %r charge %d and isotope %r charge %d give the same four words'
+                              % (sym, iso, ch, other[0], other[1]), {'element': sym, 'isotope': iso, 'charge': ch})
             if iso is not None:
                 bit = iso - a0.mdl_isotope + 54
-                if not 46 <= bit <= 63:
+                if not 46 <= bit <= 62:      # 63 is the 'isotope not specified' bit
                     ctx.violation('isotope-not-representable-in-matcher-layout/field-overlap',
-                                  '%s-%d: isotope bit %d leaves the 18-bit isotope field (46..63) and overlaps radical/charge bits'
+                                  '%s-%d: isotope bit %d is outside the 17 isotope bits 46..62 (63 = not specified; below 46 = radical / charge bits)'
                                   % (sym, iso, bit), {'element': sym, 'isotope': iso, 'charge': ch})
             # element bit present exactly once across v1 (bits 1..56) / v2 (bits 4..63)
             eb = bin(v1 & 0x01fffffffffffffe).count('1') + bin(v2 & 0xfffffffffffffff0).count('1')
